@@ -108,6 +108,13 @@ def singular_case(rng, cid, prec, n, sub):
                     if key[1] == c:
                         del ent[key]
                 ent[(0, c)] = gen.val(rng); ent[(1, c)] = gen.val(rng)
+    # threshold 0 with exactly zero diagonal entries (stored) in columns BEFORE the singular one: the diagonal is preferred only when
+    # it is nonzero; a zero diagonal taken as pivot divides by zero and the NaN columns look singular too early
+    zdiag = sub in ("zerocol", "cancel", "multizero") and rng.random() < 0.5
+    if zdiag:
+        for j in rng.sample(range(n), min(n, 3)):
+            if (j, j) in ent and sum(1 for (i, jj), v in ent.items() if jj == j and i != j and v != 0) >= 1:
+                ent[(j, j)] = 0.0
     # badly scaled AND singular without an empty row or column: the expert driver equilibrates (equed != NOEQUIL, B is scaled) before
     # it learns that the matrix is singular; X must still come back untouched.  Powers of two keep exact cancellations exact.
     scaled = sub in ("cancel", "structdef", "relaxdef") and rng.random() < 0.6
@@ -126,18 +133,19 @@ def singular_case(rng, cid, prec, n, sub):
             vals += [rnd(v), 0.0]
     nrhs = rng.choice([1, 2])
     rhs = [rnd(gen.val(rng)) for _ in range(n * nrhs * ncomp)]
-    driver = "gssvx" if scaled else rng.choice(["gssv", "gssvx"])
+    driver = "gssvx" if (scaled or zdiag) else rng.choice(["gssv", "gssvx"])
+    thresh = 0.0 if zdiag else 1.0
     if sub == "multizero":
         return dict(id=cid, prec=prec, driver=driver, stype="NC", m=n, n=n, colptr=A["colptr"], rowind=A["rowind"], vals=vals,
                     nrhs=nrhs, rhs=rhs, nprocs=rng.choice([2, 3, 4, 8]), colperm=rng.choice([0, 1, 2, 3]),
                     ienv=[rng.choice([1, 2, 4]), rng.choice([1, 2, 4]), rng.choice([4, 8, 200]), 200, 100, -50, -50, -30],
                     perturb=[rng.randint(1, 10 ** 6), rng.choice([0.2, 0.5]), rng.choice([100, 400])],
-                    fact=rng.choice([0, 1]), trans=0, dumplu=1, timeout=60, kind=sub, trace=2)
+                    fact=rng.choice([0, 1]), trans=0, dumplu=1, timeout=60, kind=sub, trace=2, thresh=thresh)
     return dict(id=cid, prec=prec, driver=driver, stype="NC", m=n, n=n, colptr=A["colptr"], rowind=A["rowind"], vals=vals,
                 nrhs=nrhs, rhs=rhs, nprocs=rng.choice([1, 2, 4, 8]), colperm=rng.choice([0, 1, 2, 3]),
                 ienv=[rng.choice([1, 2, 4, 8]), rng.choice([1, 2, 4, 6]), rng.choice([8, 200]), 200, 100, -50, -50, -30],
                 perturb=[rng.randint(1, 10 ** 6), rng.choice([0.0, 0.2]), rng.choice([0, 100])],
-                fact=1 if scaled else rng.choice([0, 1]), trans=0, dumplu=1, timeout=60, kind=sub, trace=2)
+                fact=1 if scaled else rng.choice([0, 1]), trans=0, dumplu=1, timeout=60, kind=sub, trace=2, thresh=thresh)
 
 
 def thinsnode_case(rng, cid, prec):
